@@ -405,7 +405,11 @@ impl ToOrdinal {
             } else {
                 definitions.get_vec("NumbersOrdinalFractionalOnes")?
             };
-            let number_as_int: usize = number.parse().unwrap(); // already verified it is only digits
+            // already verified it is only digits, but there can be too many of them for a usize (then it isn't one of the irregular ones)
+            let number_as_int: usize = match number.parse() {
+                Ok(number_as_int) => number_as_int,
+                Err(_) => return None,
+            };
             if number_as_int < words.len() {
                 // use the words associated with this irregular pattern.
                 return Some( words[number_as_int].clone() );
